@@ -23,6 +23,16 @@ XSI = 'xmlns:xsi="http://www.w3.org/2001/XMLSchema-instance"'
 NSD = ' xmlns:t="urn:t" ' + XSI
 XSD_NS = '{http://www.w3.org/2001/XMLSchema'
 
+# every form of namespace constraint of a wildcard (attribute text); the 1.1 forms need XMLSchema11
+ATTR_FORMS = ['namespace="##any"', 'namespace="##other"', 'namespace="##local"', 'namespace="##targetNamespace"',
+              'namespace="##local urn:x"', 'namespace="##targetNamespace urn:y"', 'namespace="urn:x urn:y"',
+              'namespace="##local ##targetNamespace urn:x"']
+ATTR_FORMS_11 = ['notNamespace="urn:x"', 'notNamespace="##local urn:y"', 'notNamespace="##targetNamespace"',
+                 'namespace="##any" notQName="a:foo t:foo"']
+# element wildcards of the shared model groups never admit the target namespace (no UPA conflict with t:wtail)
+ELEM_FORMS = ['namespace="##other"', 'namespace="##local"', 'namespace="urn:x urn:y"', 'namespace="##local urn:x"']
+ELEM_FORMS_11 = ['notNamespace="##targetNamespace urn:x"', 'notNamespace="##targetNamespace ##local"']
+
 HOLDERS = ['self', 'child', 'typed', 'group', 'ref']
 # where the referenced key/unique is declared relative to the element that carries the keyref:
 #   self   on the same element                       (resolved in the element's own list, identities.py:295-302)
@@ -50,6 +60,8 @@ class Features:
                 plan.append('poly')
             if rng.random() < 0.4:
                 plan.append('notation')
+            if rng.random() < 0.5:
+                plan.append('wild')
         self.plan = plan
         for k, what in enumerate(plan):
             getattr(self, '_' + what)(k)
@@ -218,6 +230,93 @@ class Features:
                        ('notation: not a QName', '1 2')):
             self.probes.append({'xml': f'<t:npic{n}{NSD} fmt="{v}"/>', 'tag': tag, 'block': 'notation'})
 
+    # ---- wildcards shared through referenced attribute groups / model groups ----------------------------
+    def _wild(self, k: int) -> None:
+        """several types whose complete attribute wildcard is COMPUTED from shared components: intersection of the
+        wildcards of several referenced attribute groups (and of a local xs:anyAttribute), union with the wildcard of
+        the base type under an extension; element wildcards in global model groups shared by several types"""
+        for _ in range(4):
+            decls, probes, tags = self._wild_try(k)
+            if self._builds(decls):
+                for d in decls:
+                    self._add(*d)
+                self.probes += probes
+                self.tags += tags
+                return
+        self.tags.append('registry:shared-wildcards/dropped (combination refused by the processor)')
+
+    def _builds(self, decls: list) -> bool:
+        import xmlschema
+        text = ('<xs:schema xmlns:xs="http://www.w3.org/2001/XMLSchema" targetNamespace="urn:t" xmlns:t="urn:t" '
+                'xmlns:a="urn:a" elementFormDefault="qualified">' + ''.join(d[2] for d in decls) + '</xs:schema>')
+        try:
+            (xmlschema.XMLSchema11 if self.xsd11 else xmlschema.XMLSchema10)(text)
+            return True
+        except Exception:   # noqa
+            return False
+
+    def _wild_try(self, k: int) -> tuple[list, list, list]:
+        rng = self.rng
+        decls: list = []
+        tags = ['registry:shared-wildcards']
+        forms = ATTR_FORMS + (ATTR_FORMS_11 if self.xsd11 else [])
+        eforms = ELEM_FORMS + (ELEM_FORMS_11 if self.xsd11 else [])
+
+        def any_attr(f: str) -> str:
+            tags.append('wildcard-form:' + f)
+            return f'<xs:anyAttribute {f} processContents="{rng.choice(["lax", "skip"])}"/>'
+        ng = rng.randint(3, 4)
+        for i in range(ng):
+            inner = ''
+            if i and rng.random() < 0.3:
+                inner = f'<xs:attributeGroup ref="t:WG{k}_{rng.randrange(i)}"/>'
+                tags.append('wildcard-combination:group-nested-in-group')
+            decls.append(('attributeGroup', f'WG{k}_{i}', f'<xs:attributeGroup name="WG{k}_{i}">{inner}'
+                          f'{any_attr(rng.choice(forms))}</xs:attributeGroup>'))
+        nm_ = 2
+        f0 = rng.choice(eforms)
+        tags.append('wildcard-form(element):' + f0)
+        decls.append(('group', f'WM{k}_0', f'<xs:group name="WM{k}_0"><xs:sequence><xs:any {f0} processContents="lax" '
+                      f'minOccurs="0" maxOccurs="2"/></xs:sequence></xs:group>'))
+        decls.append(('group', f'WM{k}_1', f'<xs:group name="WM{k}_1"><xs:choice><xs:group ref="t:WM{k}_0"/>'
+                      f'<xs:element name="wtail" type="xs:int"/></xs:choice></xs:group>'))
+        nt = rng.randint(3, 5)
+        has_group: dict = {}
+        for j in range(nt):
+            kind = rng.choice(['refs', 'refs', 'refs+local', 'ext', 'ext'] if j else ['refs', 'refs+local'])
+            refs = rng.sample(range(ng), rng.randint(1, min(3, ng)) if kind != 'ext' else rng.randint(0, 2))
+            body = ''.join(f'<xs:attributeGroup ref="t:WG{k}_{i}"/>' for i in refs)
+            if len(refs) > 1:
+                tags.append('wildcard-combination:intersection-of-%d-group-refs' % len(refs))
+            if kind == 'refs+local' or (kind == 'ext' and rng.random() < 0.5):
+                body += any_attr(rng.choice(forms))
+                tags.append('wildcard-combination:' + ('intersection-with-local-anyAttribute' if refs else 'local-anyAttribute'))
+            content = ''
+            if kind == 'ext':
+                base = rng.randrange(j)
+                tags.append('wildcard-combination:union-by-extension')
+                has_group[j] = has_group[base]
+                xml = (f'<xs:complexType name="WT{k}_{j}"><xs:complexContent><xs:extension base="t:WT{k}_{base}">{body}'
+                       f'</xs:extension></xs:complexContent></xs:complexType>')
+            else:
+                has_group[j] = rng.random() < 0.5
+                if has_group[j]:
+                    content = f'<xs:group ref="t:WM{k}_{rng.randrange(nm_)}"/>'
+                    tags.append('wildcard-combination:shared-model-group')
+                xml = f'<xs:complexType name="WT{k}_{j}">{content}{body}</xs:complexType>'
+            decls.append(('complexType', f'WT{k}_{j}', xml))
+        probes = []
+        ns = ' xmlns:t="urn:t" xmlns:x="urn:x" xmlns:y="urn:y" xmlns:z="urn:z" xmlns:a="urn:a"'
+        for j in range(nt):
+            decls.append(('element', f'we{k}_{j}', f'<xs:element name="we{k}_{j}" type="t:WT{k}_{j}"/>'))
+            kids = '<x:c/><c xmlns=""/>' if has_group[j] else ''
+            probes.append({'xml': f'<t:we{k}_{j}{ns} foo="1" t:foo="1" x:foo="1" y:foo="1" z:foo="1" a:foo="1">{kids}</t:we{k}_{j}>',
+                           'tag': 'wildcards: one attribute of every namespace region', 'block': 'wild'})
+            if has_group[j]:
+                probes.append({'xml': f'<t:we{k}_{j}{ns}><y:c/><t:unknown/></t:we{k}_{j}>',
+                               'tag': 'wildcards: children of other regions', 'block': 'wild'})
+        return decls, probes, tags
+
     def _add(self, kind: str, name: str, xml: str) -> None:
         self.decls.append((kind, name, xml))
 
@@ -349,3 +448,125 @@ def registry_view(schema: Any, ep: Epochs, touch: bool = True) -> dict:
                       + [['substitution-group', h, True] for a in anc for h in a.substitution_groups if h.startswith(XSD_NS)])
     return {'memo': memo, 'inherited': sorted(inherited), 'inherited_expected': expected, 'store': sorted(store), 'idents': idents, 'subst': subst,
             'keyrefs': sorted(keyrefs, key=lambda k: k['n']), 'views': sorted(set(views)), 'reqs': reqs}
+
+
+# =============================================================================================
+#  purity monitor: a structural fingerprint of a built component and of what is reachable from it
+# =============================================================================================
+def _occ(c: Any) -> list:
+    return [getattr(c, 'min_occurs', None), getattr(c, 'max_occurs', None)]
+
+
+def _sset(x: Any) -> Any:
+    if x is None:
+        return None
+    if isinstance(x, (set, frozenset, list, tuple)):
+        return sorted(str(i) for i in x)
+    return str(x)
+
+
+def fingerprint(c: Any, deep: bool, depth: int = 0, top: bool = True) -> Any:
+    """Canonical JSON-able description of the declared content of component `c`: what an instance is validated
+    against, not caches or back links.  A reference to another GLOBAL component is its name (that component has a
+    fingerprint of its own); anonymous components are described in place.  deep=False is the description that is
+    already final when the constructor of a global returns (local element declarations are completed later by
+    XsdGroup.build, so only their name and occurrence are taken); deep=True describes everything."""
+    from xmlschema.validators import XsdElement, XsdGroup, XsdAttributeGroup, XsdAttribute, XsdComplexType, \
+        XsdAnyElement, XsdAnyAttribute, XsdSimpleType, XsdNotation, XsdIdentity
+    if c is None:
+        return None
+    if depth > 40:
+        return 'too-deep'
+    cn = type(c).__name__
+    try:
+        if isinstance(c, (XsdAnyElement, XsdAnyAttribute)):
+            return [cn, _sset(c.namespace), _sset(getattr(c, 'not_namespace', None)), _sset(getattr(c, 'not_qname', None)),
+                    c.process_contents] + (_occ(c) if isinstance(c, XsdAnyElement) else [])
+        if isinstance(c, XsdNotation):
+            return [cn, c.name, c.elem.get('public'), c.elem.get('system')]
+        if isinstance(c, XsdAttribute):
+            if not top and c.parent is None or (c.ref is not None and not top):
+                return ['attribute-ref', c.name, c.use, c.default, c.fixed]
+            t = c.type
+            return [cn, c.name, c.use, c.default, c.fixed,
+                    ['ref', t.name] if (t is not None and t.parent is None and t.name) else fingerprint(t, deep, depth + 1, False)]
+        if isinstance(c, XsdAttributeGroup):
+            if not top and c.parent is None and c.name:
+                return ['attributeGroup-ref', c.name]
+            # the VALUES are described in place even when they are shared with a referenced group: what this
+            # holder validates against is what the shared object says
+            return [cn, c.name, [[k, fingerprint(v, deep, depth + 1, False)] for k, v in
+                                 sorted(c.items(), key=lambda kv: kv[0] or '')]]
+        if isinstance(c, XsdElement):
+            if c.ref is not None or (not top and c.elem.get('ref') is not None):
+                return ['element-ref', c.elem.get('ref'), _occ(c)]
+            if not top and c.parent is None:
+                return ['element-ref', c.name, _occ(c)]
+            if not deep and not top:
+                return ['local-element', c.elem.get('name'), _occ(c)]
+            t = getattr(c, 'type', None)
+            return [cn, c.name, _occ(c) if not top else None, getattr(c, 'nillable', None), getattr(c, 'abstract', None),
+                    getattr(c, 'default', None), getattr(c, 'fixed', None), _sset(getattr(c, 'block', None)),
+                    _sset(getattr(c, 'final', None)), getattr(c, 'substitution_group', None),
+                    ['ref', t.name] if (t is not None and t.parent is None and t.name) else fingerprint(t, deep, depth + 1, False),
+                    [[i.name, type(i).__name__, getattr(getattr(i, 'selector', None), 'path', None),
+                      [getattr(f, 'path', None) for f in (getattr(i, 'fields', None) or [])]]
+                     for i in (getattr(c, 'identities', None) or [])],
+                    [[getattr(a, 'path', None), getattr(getattr(a, 'type', None), 'name', None)]
+                     for a in (getattr(c, 'alternatives', None) or [])]]
+        if isinstance(c, XsdGroup):
+            if not top and c.parent is None and c.name:
+                return ['group-ref', c.name, _occ(c)]
+            if getattr(c, 'ref', None) is not None and not top:
+                return ['group-ref', c.name, _occ(c)]
+            return [cn, c.name, c.model, _occ(c) if not top else None, getattr(c, 'mixed', None),
+                    [fingerprint(x, deep, depth + 1, False) for x in c]]
+        if isinstance(c, XsdComplexType):
+            if not top and c.parent is None and c.name:
+                return ['ref', c.name]
+            b = c.base_type
+            oc = getattr(c, 'open_content', None)
+            content = c.content
+            return [cn, c.name, c.derivation, getattr(b, 'name', None) if b is not None else None, c.mixed,
+                    getattr(c, 'abstract', None), _sset(c.block), _sset(c.final),
+                    fingerprint(c.attributes, deep, depth + 1, False) if c.attributes.parent is not None or not c.attributes.name
+                    else fingerprint(c.attributes, deep, depth + 1, True),
+                    (['ref', content.name] if (isinstance(content, XsdSimpleType) and content.parent is None and content.name)
+                     else fingerprint(content, deep, depth + 1, False)),
+                    None if oc is None else [oc.mode, fingerprint(oc.any_element, deep, depth + 1, False)],
+                    [getattr(a, 'path', None) for a in (getattr(c, 'assertions', None) or [])]]
+        if isinstance(c, XsdSimpleType):
+            if not top and c.parent is None and c.name:
+                return ['ref', c.name]
+            b = getattr(c, 'base_type', None)
+            facets = []
+            for k, f in (getattr(c, 'facets', None) or {}).items():
+                v = getattr(f, 'value', None)
+                if v is None:
+                    v = getattr(f, 'enumeration', None) or getattr(f, 'regexps', None)
+                facets.append([str(k), _sset(v) if isinstance(v, (list, set, tuple)) else str(v)])
+            members = getattr(c, 'member_types', None)
+            return [cn, c.name, (['ref', b.name] if (b is not None and b.parent is None and b.name) else fingerprint(b, deep, depth + 1, False)),
+                    sorted(facets), getattr(c, 'white_space', None),
+                    None if members is None else [(['ref', m.name] if (m.parent is None and m.name) else fingerprint(m, deep, depth + 1, False))
+                                                  for m in members]]
+        if isinstance(c, XsdIdentity):
+            return [cn, c.name]
+        return [cn, getattr(c, 'name', None)]
+    except Exception as e:   # noqa  (a half-built component: described by the failure, which must be stable too)
+        return [cn, 'fingerprint-raised', type(e).__name__]
+
+
+def diff_fp(a: Any, b: Any, path: str = '') -> Optional[str]:
+    """first position where two fingerprints differ"""
+    if type(a) is not type(b):
+        return f'{path}: {a!r} -> {b!r}'[:400]
+    if isinstance(a, list):
+        if len(a) != len(b):
+            return f'{path}: {a!r} -> {b!r}'[:400]
+        for i, (x, y) in enumerate(zip(a, b)):
+            d = diff_fp(x, y, f'{path}[{i}]')
+            if d:
+                return d
+        return None
+    return None if a == b else f'{path}: {a!r} -> {b!r}'[:400]
